@@ -322,9 +322,8 @@ def setCell (s : Sheet) (k : Setter) (c r : Nat) (p : Payload) : Sheet × Res :=
   match p with
   | .sst e =>
     -- prepareCell comes first: a rejected reference leaves the string table alone
-    let (sst', i) := intern s.sst e
-    let (s1, res) := writeAt s c r (writeCell k (.tv Facts.C03.sstTag (idxTok i)))
-    if res = .ok then ({ s1 with sst := sst' }, res) else (s, res)
+    let w := writeAt s c r (writeCell k (.tv Facts.C03.sstTag (idxTok (intern s.sst e).2)))
+    if w.2 = .ok then ({ w.1 with sst := (intern s.sst e).1 }, w.2) else (s, w.2)
   | _ => writeAt s c r (writeCell k p)
 
 /-- `SetCellFormula(sheet, cell, formula)` without options: "" removes the formula and
@@ -354,16 +353,19 @@ def getStyle (s : Sheet) (c r : Nat) : Sheet × Res :=
     | none => 0
   ({ s with rows := rows1 }, .style st)
 
+/-- `lastRowNum` of `getCellStringFunc`: the `R` of the last row slot -/
+def lastRowNum (rows : List Row) : Nat :=
+  match rows.getLast? with
+  | some rd => rd.r
+  | none => 0
+
 /-- `getCellStringFunc`: redirect, then search the row list for `R == row` and the
 cells of such rows for the reference. -/
 def getCell (s : Sheet) (c r : Nat) : Res :=
   if c = 0 ∨ r = 0 then .err else
   let a := anchor s.merges c r
   if a.1 = 0 ∨ a.2 = 0 then .err else
-  let lastRowNum := match s.rows.getLast? with
-    | some rd => rd.r
-    | none => 0
-  if a.2 > lastRowNum then .cell none else
+  if a.2 > lastRowNum s.rows then .cell none else
   .cell (s.rows.findSome? fun rd =>
     if rd.r = a.2 then rd.cells.find? (fun cell => cell.col = a.1 ∧ cell.row = a.2) else none)
 
@@ -442,9 +444,8 @@ def step (s : Sheet) : Op → Sheet × Res
   | .set k c r p =>
       match p with
       | .sst e =>
-        let (sst', i) := intern s.sst e
-        let (s1, res) := writeAt s c r (writeCell k (.tv Facts.C03.sstTag (idxTok i)))
-        if res = .ok then ({ s1 with sst := sst' }, res) else (s, res)
+        let w := writeAt s c r (writeCell k (.tv Facts.C03.sstTag (idxTok (intern s.sst e).2)))
+        if w.2 = .ok then ({ w.1 with sst := (intern s.sst e).1 }, w.2) else (s, w.2)
       | _ => writeAt s c r (writeCell k p)
   | .formula c r fm => writeAt s c r fun v =>
       if fm = "" then { v with f := none } else { v with f := some fm, t := Facts.C03.formulaTag, is := none }
